@@ -107,4 +107,10 @@ CHECKS = {
                  "surfaces, tetrahedral meshes and polylines and compared with independently assembled dense matrices and with the defining identities "
                  "(symmetry, zero row sums, L == stiffness, Re(G* A G) == L, gradient of affine functions, mass sums, one entry per incidence).",
          "design_ref": "DESIGN.md section 6 C08", "note": _NOTE, "technique": "runtime monitoring: reference-model differential oracle (dense re-assembly) + algebraic identities"},
+ "C07": {"text": "Reference-model + metamorphic monitor: every per-element quantity (lengths, midpoints, areas, normals, barycentres, circumcentres, corner "
+                 "angles, cotangents, cotangent weights, vertex normals per weighting, angle defects, degree, cell volumes, global sums and means, Euler "
+                 "characteristic) is compared with an independent numpy evaluation on generated triangle / planar-polygon surfaces and tetrahedral meshes, "
+                 "with the identities (angle sum, Gauss-Bonnet, constant interpolation), rigid-motion / renumbering / scaling laws on harness-built copies, "
+                 "and every option combination (persistent, dense, names, weighting, zero_border; output attributes reused).",
+         "design_ref": "DESIGN.md section 6 C07", "note": _NOTE, "technique": "runtime monitoring: reference-model differential oracle + metamorphic (rigid / scale / renumbering) monitors"},
 }
